@@ -282,7 +282,9 @@ struct flat_set {
         requires etl::detail::is_transparent_v<Compare>
     [[nodiscard]] constexpr auto count(K const& key) const -> size_type
     {
-        return find(key) == end() ? 0 : 1;
+        // A key of another type can be equivalent to more than one element.
+        auto const range = equal_range(key);
+        return static_cast<size_type>(etl::distance(range.first, range.second));
     }
 
     [[nodiscard]] constexpr auto contains(key_type const& key) const -> bool { return count(key) == 1; }
@@ -291,7 +293,7 @@ struct flat_set {
         requires etl::detail::is_transparent_v<Compare>
     [[nodiscard]] constexpr auto contains(K const& key) const -> bool
     {
-        return count(key) == 1;
+        return find(key) != end();
     }
 
     [[nodiscard]] constexpr auto lower_bound(key_type const& key) -> iterator
